@@ -180,6 +180,14 @@ func runC06(r *Run) {
 		if crossing {
 			sig += ",crossing"
 		}
+		// impatient: while a data write is stuck in the transport (holding the frame
+		// lock) a Ping with a short context gives up waiting for that lock; then the
+		// application calls Close. The Close frame has to wait for the data frame to
+		// finish and must arrive whole.
+		impatient := writeStall > 0 && valid && !crossing && t.Pct(50)
+		if impatient {
+			sig += ",impatient-ping"
+		}
 		if writeStall > 0 {
 			peer.Hold = func() bool { return stalled }
 			sig += ",wstall"
@@ -207,6 +215,17 @@ func runC06(r *Run) {
 					peer.Inject(peer.Encode(wsref.Frame{Fin: true, Opcode: wsref.OpClose, Payload: crossPayload}))
 				})
 				r.S.Count("probe.crossing-closes")
+			}
+			if impatient {
+				r.S.Go("blocked-writer", func() {
+					c.Write(bg, websocket.MessageBinary, Payload{Kind: 2, Len: 3000, Seed: 5}.Bytes())
+				})
+				r.S.ParkE("a.closer.waitw", func() bool { return rc.Lib.InWriteLocked() || rc.Lib.ClosedLocked() }, nil)
+				pctx, cancel := context.WithTimeout(bg, 100*time.Millisecond)
+				if perr := c.Ping(pctx); perr != nil {
+					r.S.Count("probe.ping-gave-up-behind-a-stalled-write-before-close")
+				}
+				cancel()
 			}
 			closeErr = c.Close(websocket.StatusCode(code), reason)
 			closeDone = true
@@ -261,6 +280,10 @@ func runC06(r *Run) {
 		}
 		if !closeDone {
 			r.Violate("close-did-not-return", sig, "Close did not return")
+			return
+		}
+		if peer.ParseErr != nil {
+			r.Violate("emitted-stream-corrupt", sig, "the bytes emitted around the Close frame do not parse: %v", peer.ParseErr)
 			return
 		}
 		if valid {
